@@ -70,6 +70,8 @@ def spec_all_elems(eng, lst, predname):
     name = strval(predname)
     pred = eng.reg.elem_preds[name]
     lst = eng.force(lst)
+    if isinstance(lst, VNone):
+        return VBool(True)        # a local that was never bound on this path (final('x')): no elements
     m = eng.state.lists[lst.lid]
     if m.items is not None:
         ts = [pred(eng, eng.force(x)) for x in m.items]
